@@ -4,6 +4,9 @@
 import json, subprocess
 
 BUILT = {
+ "C04": ("fault_enumeration", "crash image before every page write and the header write of every flush (timer-equivalent, CREATE TABLE, close, recovery's own), recovered in fresh processes, compared with the model; second-level crashes inside recovery's flush",
+         "Every write of every flush of every generated history is a crash point; page orders are those the engine produced. One class of images (torn flush carrying a page allocation) is a recorded known finding and not judged.",
+         "process-death crash model, no torn page writes; a table whose CREATE was in flight is not judged"),
  "C03": ("fault_enumeration", "crash image before every write and fsync a statement issues on the log (two cuts), recovered in fresh processes; prefix-state oracle; idempotence; continuation",
          "Every log write/fsync of every armed statement is a crash point, in both cuts; armed statements and prefix histories are sampled.",
          "process-death crash model; fsync cut applies to the log only; data file quiescent while logging (C13)"),
